@@ -3,7 +3,7 @@
 IR (plain tuples, JSON-able):
   expr  := ["v", name] | ["c", int] | ["b", op, e1, e2]        op in + - * < == !=
   stmt  := ["assign", x, e] | ["aug", x, op, e] | ["print", e] | ["if", c, body, orelse]
-         | ["while", c, body] | ["for", x, e, body]  (for x in range(e))
+         | ["while", c, body, orelse] | ["for", x, e, body, orelse]  (for x in range(e); orelse = else-clause)
          | ["return", e] | ["pass"] | ["break"] | ["continue"]
          | ["call", rets, args, body, tail]   (only in results: outlined call with the callee's body inlined)
 A host is {"pos": "function"|"method"|"module", "params": [names], "body": [stmt]}.
@@ -68,6 +68,17 @@ class Gen:
             return [r.choice(["break", "continue"])]
         return ["print", ["v", r.choice(self.vars)]]
 
+    def orelse(self, depth, in_loop):
+        """else-clause of a loop: its break/continue belong to the ENCLOSING loop (only generated inside one)."""
+        r = self.rng
+        if r.random() > 0.3:
+            return []
+        out = [self.simple(False) for _ in range(r.randint(1, 2))]
+        out = [x for x in out if x[0] != "return"] or [["pass"]]
+        if in_loop and r.random() < 0.6:
+            out.append([r.choice(["break", "continue"])])
+        return out
+
     def block(self, depth, in_loop, maxlen):
         r = self.rng
         n = r.randint(1, maxlen)
@@ -89,12 +100,14 @@ class Gen:
                 # the increment sits at the top level of the loop body unless a continue was generated
                 pos = r.randint(0, len(body))
                 body.insert(pos, inc)
-                out.append(["while", ["b", "<", ["v", v], bound], body])
+                out.append(["while", ["b", "<", ["v", v], bound], body, self.orelse(depth, in_loop)])
             elif depth < 3 and k < 0.37:
                 t = r.choice(["i", "j"] + self.locals[:1])
                 it = ["c", r.choice([0, 1, 2, 3])] if r.random() < 0.6 else ["v", r.choice(self.vars)]
                 body = self.block(depth + 1, True, 3) or [["pass"]]
-                out.append(["for", t, it, body])
+                if r.random() < 0.25:
+                    body.append(["if", self.cond(), [["break"]], []])
+                out.append(["for", t, it, body, self.orelse(depth, in_loop)])
                 if t not in self.vars:
                     self.vars.append(t)
             else:
@@ -141,9 +154,9 @@ def strip_returns(ss):
         elif s[0] == "if":
             out.append(["if", s[1], strip_returns(s[2]), strip_returns(s[3])])
         elif s[0] == "while":
-            out.append(["while", s[1], strip_returns(s[2])])
+            out.append(["while", s[1], strip_returns(s[2]), strip_returns(s[3])])
         elif s[0] == "for":
-            out.append(["for", s[1], s[2], strip_returns(s[3])])
+            out.append(["for", s[1], s[2], strip_returns(s[3]), strip_returns(s[4])])
         else:
             out.append(s)
     return out
@@ -188,12 +201,19 @@ def render_block(ss, ind, out, layout):
                 sub.append(render_block(s[3], ind + 4, out, layout))
             else:
                 sub.append([])
-        elif k == "while":
-            out.append(" " * ind + "while %s:" % r_expr(s[1]))
-            sub = [render_block(s[2], ind + 4, out, layout)]
-        elif k == "for":
-            out.append(" " * ind + "for %s in range(%s):" % (s[1], r_expr(s[2])))
-            sub = [render_block(s[3], ind + 4, out, layout)]
+        elif k in ("while", "for"):
+            if k == "while":
+                out.append(" " * ind + "while %s:" % r_expr(s[1]))
+                body, orelse = s[2], s[3]
+            else:
+                out.append(" " * ind + "for %s in range(%s):" % (s[1], r_expr(s[2])))
+                body, orelse = s[3], s[4]
+            sub = [render_block(body, ind + 4, out, layout)]
+            if orelse:
+                out.append(" " * ind + "else:")
+                sub.append(render_block(orelse, ind + 4, out, layout))
+            else:
+                sub.append([])
         else:
             raise ValueError(k)
         spans.append({"first": first, "last": len(out), "sub": sub})
@@ -282,11 +302,12 @@ def a_stmt(n, lines, newname=None):
         return ["print", a_expr(n.value.args[0])]
     if isinstance(n, ast.If):
         return ["if", a_expr(n.test), a_block(n.body, lines, newname), a_block(n.orelse, lines, newname)]
-    if isinstance(n, ast.While) and not n.orelse:
-        return ["while", a_expr(n.test), a_block(n.body, lines, newname)]
-    if isinstance(n, ast.For) and not n.orelse and isinstance(n.target, ast.Name) and isinstance(n.iter, ast.Call) \
+    if isinstance(n, ast.While):
+        return ["while", a_expr(n.test), a_block(n.body, lines, newname), a_block(n.orelse, lines, newname)]
+    if isinstance(n, ast.For) and isinstance(n.target, ast.Name) and isinstance(n.iter, ast.Call) \
             and isinstance(n.iter.func, ast.Name) and n.iter.func.id == "range" and len(n.iter.args) == 1:
-        return ["for", n.target.id, a_expr(n.iter.args[0]), a_block(n.body, lines, newname)]
+        return ["for", n.target.id, a_expr(n.iter.args[0]), a_block(n.body, lines, newname),
+                a_block(n.orelse, lines, newname)]
     if isinstance(n, ast.Return) and n.value is not None:
         return ["return", a_expr(n.value)]
     if isinstance(n, ast.Pass):
@@ -360,8 +381,10 @@ def _walk(ss):
             yield from _walk(s[3])
         elif s[0] == "while":
             yield from _walk(s[2])
+            yield from _walk(s[3])
         elif s[0] == "for":
             yield from _walk(s[3])
+            yield from _walk(s[4])
 
 
 def _count_calls(ss):
@@ -417,9 +440,9 @@ def g_stmt(s, lines):
     if k == "if":
         return "SIf %s %s %s %s" % (ln, g_expr(s[1]), g_block(s[2], lines), g_block(s[3], lines))
     if k == "while":
-        return "SWhile %s %s %s" % (ln, g_expr(s[1]), g_block(s[2], lines))
+        return "SWhile %s %s %s %s" % (ln, g_expr(s[1]), g_block(s[2], lines), g_block(s[3], lines))
     if k == "for":
-        return "SFor %s %s %s %s" % (ln, g_var(s[1]), g_expr(s[2]), g_block(s[3], lines))
+        return "SFor %s %s %s %s %s" % (ln, g_var(s[1]), g_expr(s[2]), g_block(s[3], lines), g_block(s[4], lines))
     if k == "call":
         return "SCall %s %s %s %s %s %s" % (ln, g_vars(s[1]), g_vars(s[2]), g_block(s[3], None),
                                             "true" if s[4] else "false", "true" if len(s) > 5 and s[5] else "false")
@@ -445,10 +468,18 @@ def g_loc(body, path, i, j, lines):
         a = g_block(s[2], lines)
         inner = g_loc(s[3], rest, i, j, lines)
         mid = "(LIfF %s %s %s %s %s" % (pre, ln, g_expr(s[1]), a, inner)
+    elif s[0] == "while" and br == 0:
+        inner = g_loc(s[2], rest, i, j, lines)
+        mid = "(LWhile %s %s %s %s %s" % (pre, ln, g_expr(s[1]), inner, g_block(s[3], lines))
     elif s[0] == "while":
-        mid = "(LWhile %s %s %s %s" % (pre, ln, g_expr(s[1]), g_loc(s[2], rest, i, j, lines))
+        b = g_block(s[2], lines)
+        mid = "(LWhileE %s %s %s %s %s" % (pre, ln, g_expr(s[1]), b, g_loc(s[3], rest, i, j, lines))
+    elif s[0] == "for" and br == 0:
+        inner = g_loc(s[3], rest, i, j, lines)
+        mid = "(LFor %s %s %s %s %s %s" % (pre, ln, g_var(s[1]), g_expr(s[2]), inner, g_block(s[4], lines))
     elif s[0] == "for":
-        mid = "(LFor %s %s %s %s %s" % (pre, ln, g_var(s[1]), g_expr(s[2]), g_loc(s[3], rest, i, j, lines))
+        b = g_block(s[3], lines)
+        mid = "(LForE %s %s %s %s %s %s" % (pre, ln, g_var(s[1]), g_expr(s[2]), b, g_loc(s[4], rest, i, j, lines))
     else:
         raise ValueError(s[0])
     post = g_block(body[k + 1:], lines)
@@ -465,8 +496,12 @@ def blocks_of(body, path=()):
                 yield from blocks_of(s[3], path + ((k, 1),))
         elif s[0] == "while":
             yield from blocks_of(s[2], path + ((k, 0),))
+            if s[3]:
+                yield from blocks_of(s[3], path + ((k, 1),))
         elif s[0] == "for":
             yield from blocks_of(s[3], path + ((k, 0),))
+            if s[4]:
+                yield from blocks_of(s[4], path + ((k, 1),))
 
 
 def spans_at(spans, path):
